@@ -13,7 +13,7 @@ from vf.core import Result, lib
 ID = "C09"
 TITLE = "Flow-property wrapper: monotone transform, bounded positive diffusivity"
 LEVEL = "exploration"
-BUDGET = {"quick": 2400, "thorough": 800000}
+BUDGET = {"quick": 6000, "thorough": 800000}
 SHRINK = {"quick": True, "thorough": True}
 FUZZ = {"thorough": 3000}  # executions per atheris process (16 processes), after the Hypothesis search
 RULE = (
